@@ -41,7 +41,7 @@ TEXT['C18'] = ("Deductive proof (Verus/Z3): CommandReader::close for every exit 
                "contract-based deductive verification (Verus) of crates/cli/src/process.rs CommandReader::{close,read} and crates/core/search.rs SearchWorker::{search,should_preprocess,should_decompress,search_preprocessor,search_decompress} over an abstract environment")
 TEXT['C09'] = ("Deductive proof (Verus/Z3) of the decimal rendering used for every printed line number, column and byte offset (DecimalFormatter, all u64 values), plus the searcher-side proof that the coordinates and bytes handed to the printers are the input's own (Core::sink_* postconditions). The printers' write paths are NOT proved; they are covered by bounded native enumerations only: printed lines / line numbers / byte offsets / columns and JSON texts, submatches, base64 and framing recomputed from the input (8 patterns, all inputs over {a,b,0xFF,newline} up to 6/8 bytes, four output modes, with and without -U; one listed known finding for --column in multi-line blocks), and base64_standard on every input of 0..3 bytes.",
                "contract-based deductive verification (Verus): DecimalFormatter against a recursive decimal spec; event coordinates from the searcher unit")
-TEXT['C12'] = ("Bounded only. Kani/CBMC (all byte paths up to 5 bytes): globset's candidate decomposition (pathutil::file_name, file_name_ext), cut mechanically from the real file, against an executable spec; counterexamples are replayed natively. Native bounded enumeration of the real globset crate: every glob up to 3 (quick) / 4 (thorough) tokens x 16 option combinations alone in a set, and every ordered pair of a 402-glob pool, against all paths up to 4 bytes over {a,b,.,/,-,A}: the set answers exactly like its member globs. Two defects found and repaired (paths ending in a dot; final component '.' or '..'). That a single glob means what is documented (parser, regex translation) is not verified.",
+TEXT['C12'] = ("Bounded only. Kani/CBMC (all byte paths up to 5 bytes): globset's candidate decomposition (pathutil::file_name, file_name_ext), cut mechanically from the real file, against an executable spec; counterexamples are replayed natively. Native bounded enumeration of the real globset crate: every glob up to 3 (quick) / 4 (thorough) tokens x 16 option combinations alone in a set, and every ordered pair of a 492-glob pool, against all paths up to 4 bytes over {a,b,.,/,-,A}: the set answers exactly like its member globs. Two defects found and repaired (paths ending in a dot; final component '.' or '..'). That a single glob means what is documented (parser, regex translation) is not verified.",
                "bounded function-vs-spec-function check with Kani on mechanically extracted real functions + bounded native enumeration with the property's own statement as oracle")
 checks = []
 for pid in sorted(props):
